@@ -242,8 +242,16 @@ func VerifHarness_C09_UnitDispatch() {
 
 // C09: quantities add and subtract only within one unit.
 func VerifHarness_C09_QuantityAddSub() {
-	units := []string{"mg", "kg", "days", ""}
-	ua, ub := units[verifrt.Choose("ua", 4)], units[verifrt.Choose("ub", 4)]
+	// a unit is one unit only as the same string (UCUM codes are case sensitive: 'mg' milligram, 'Mg' megagram):
+	// besides the menu both units are arbitrary two-byte strings
+	unit := func(label string) string {
+		units := []string{"mg", "kg", "days", "", "Mg", "Days"}
+		if k := verifrt.Choose(label, len(units)+1); k < len(units) {
+			return units[k]
+		}
+		return verifrt.NondetStringN(label+".s", 2)
+	}
+	ua, ub := unit("ua"), unit("ub")
 	va, vb := verifrt.NondetIntRange("va", -1000, 1000), verifrt.NondetIntRange("vb", -1000, 1000)
 	a, b := verifQty(va, ua), verifQty(vb, ub)
 	s, e1 := a.Add(b)
